@@ -302,3 +302,74 @@ func SlowStorageTenure(L, before, after time.Duration) (out Outcome) {
 	la.Unlock()
 	return out
 }
+
+// ShutdownWhileHeld: the holder's provider is shut down while the lock is held (no new attempt may succeed, but
+// the holder holds until it unlocks). The holder stays for 2.5 leases; a Locker of another provider spinning
+// TryLock must never get the lock.
+func ShutdownWhileHeld(L time.Duration) (out Outcome) {
+	stop := canary()
+	defer func() { out.Stall = stop() }()
+	inner := inmem.New()
+	pa := dist.NewKvsLockProvider(inner, "/lt/")
+	pb := dist.NewKvsLockProvider(inner, "/lt/")
+	dist.VerifSetLeaseTTL(pa, L)
+	dist.VerifSetLeaseTTL(pb, L)
+	defer pb.Shutdown()
+	la, lb := pa.NewLocker("x"), pb.NewLocker("x")
+	la.Lock()
+	pa.Shutdown()
+	t0 := time.Now()
+	for time.Since(t0) < 5*L/2 {
+		if lb.TryLock(context.Background()) {
+			out.Sig = "two-holders-after-shutdown-of-the-holders-provider"
+			out.What = fmt.Sprintf("lease %v: the holder's provider was shut down while the lock was held; %v later another provider's TryLock succeeded although the holder has not unlocked", L, time.Since(t0).Round(time.Millisecond))
+			out.TimeBound = true
+			lb.Unlock()
+			break
+		}
+		time.Sleep(L / 10)
+	}
+	la.Unlock()
+	return out
+}
+
+// FailedRenewalTenure: the holder's renewal requests number ks are lost (answered with an error, not executed).
+// The holder stays until two leases after the last of them; a Locker of another provider spinning TryLock must
+// never get the lock.
+func FailedRenewalTenure(L time.Duration, ks []int) (out Outcome) {
+	stop := canary()
+	defer func() { out.Stall = stop() }()
+	inner := inmem.New()
+	tA := New(inner)
+	pa := dist.NewKvsLockProvider(tA, "/lt/")
+	pb := dist.NewKvsLockProvider(inner, "/lt/")
+	for _, p := range []dist.LockProvider{pa, pb} {
+		dist.VerifSetLeaseTTL(p, L)
+		defer p.Shutdown()
+	}
+	last := 0
+	for _, k := range ks {
+		g := tA.Gate(fmt.Sprintf("Cas#%d:before", k))
+		g.Fail = true
+		close(g.Release)
+		if k > last {
+			last = k
+		}
+	}
+	la, lb := pa.NewLocker("x"), pb.NewLocker("x")
+	la.Lock()
+	t0 := time.Now()
+	hold := time.Duration(last/2+3) * L
+	for time.Since(t0) < hold {
+		if lb.TryLock(context.Background()) {
+			out.Sig = "two-holders-after-lost-renewal-requests"
+			out.What = fmt.Sprintf("lease %v: the holder's renewal requests %v were lost (error, not executed), all others were answered; %v into the tenure another provider's TryLock succeeded although the holder has not unlocked; storage calls of the holder: %v", L, ks, time.Since(t0).Round(time.Millisecond), tA.Events())
+			out.TimeBound = true
+			lb.Unlock()
+			break
+		}
+		time.Sleep(L / 10)
+	}
+	la.Unlock()
+	return out
+}
